@@ -444,7 +444,7 @@ def _group_by_reduce(
     else:
         n_rows = len(group_key)
         for i in indexer:
-            if check_in_bounds and i >= n_rows:
+            if check_in_bounds and (i >= n_rows or i < -n_rows):
                 raise ValueError(
                     f"Indexer {i} is out of bounds for array of length {n_rows}"
                 )
